@@ -75,3 +75,29 @@ class JsonDumps:
 class IterChild:
     """all nodes of the type tree below (and including) self - recursive generator, bounded-checked only"""
     sorts = {"result": "list"}
+
+
+CTX = "json_to_models/dynamic_typing/models_meta.py::AbsoluteModelRef.Context"
+
+
+@contract(CTX + ".__enter__", props=["C14", "C15"])
+class ContextEnter:
+    """C15: works in any thread (the thread-local slot may never have been assigned in this thread);
+    C14: remembers what was observable before and installs the new mapping."""
+    modifies = ["_old", "context", "$def:context"]
+
+    def ensures(self):
+        return {
+            "remembers_previous": self._old is old(tl_get(self.data, "context")),
+            "installs": tl_get(self.data, "context") is old(self.context),
+            "own_mapping_kept": self.context is old(self.context),
+        }
+
+
+@contract(CTX + ".__exit__", props=["C14", "C15"])
+class ContextExit:
+    """C14: the previous reference context is restored on every exit (normal or exceptional)."""
+    modifies = ["context", "$def:context"]
+
+    def ensures(self, exc_type, exc_val, exc_tb):
+        return {"restores": tl_get(self.data, "context") is old(self._old)}
